@@ -26,7 +26,7 @@ CHECKS = {
     "C06": dict(text="differential against the reference semantics on grammars with guards / parse steps / groups under optional, many, some, last, fallback; plus the message clause: a sentence with an invalid value fails with ParseFailed/GuardFailed pointing at the offending item (observed at the render cut, confirmed on native text)",
                 note="bounds <=3 items quick / <=4 thorough; guards are `value >= 10` executed from the harness MIR; conversion is an uninterpreted validity predicate",
                 tech=MIRSYM + ", differential oracle", ref="DESIGN.md 4/C06"),
-    "C07": dict(text="differential against a documentation-level semantics of choices (bare / optional / repeated) over a flag, an argument and a two-argument group, plus a repeated choice of three flags: exactly-one alternative, conflicts fail, repeated values in command line order (leftmost item of each instance)",
+    "C07": dict(text="differential against a documentation-level semantics of choices (bare / optional / repeated) over a flag, an argument and a two-argument group (declared last and declared first), plus a repeated choice of three flags: exactly-one alternative, conflicts fail, repeated values in command line order (leftmost item of each instance)",
                 note="bounds: <=3 argv words quick / <=4 thorough (up to twice as many items), grammars a1-a4",
                 tech=MIRSYM + ", differential oracle", ref="DESIGN.md 4/C07"),
     "C08": dict(text="differential against the reference semantics on subcommand trees (depth 2, aliases, optional command, per-level items and positionals)",
@@ -50,8 +50,8 @@ CHECKS = {
     "C14": dict(text="run_subparser executed from the full-feature MIR in completion mode on 0-2 symbolic words followed by a concrete word being typed; Complete::complete, arg_matches/cmd_matches, Doc::to_completion and render_test run on real text: the outcome is always Completion; every candidate with a replacement is a visible name (preferred spelling) of the entered or an enclosing level that matches the typed word, a subcommand of the active level extending it, or the `--` hint - never a hidden name or one of a command not entered; after clean prefixes every visible not-yet-given name extending `--prefix` is offered. One concrete argv per path is validated against the native completion text",
                 note="the typed word ranges over 21 fixed words plus words derived from each grammar (prefixes of command names / aliases / long names, also followed by a foreign letter; exact shorts), the prefix is symbolic (<=2 words quick / <=3 thorough); 9 grammars incl. a flag-or-positional choice at top level and inside a command, an argument with a user completer, an adjacent option-struct with a completer; no or non-UTF-8 last words in the corpus; one known finding (`name=` for an unavailable item)",
                 tech=MIRSYM + ", token layer prefix + concrete typed word", ref="DESIGN.md 4/C14"),
-    "C15": dict(text="the single-quote wrapper `Shell` executed from MIR (core::fmt interpreted) on every valid UTF-8 string up to the bound: the output lexes under POSIX rules as exactly one word with the input as value; render_zsh/bash/fish/simple executed from MIR on candidate and completer lists whose user-originated strings are tracked atoms: no atom reaches a zsh/bash script unquoted, every line is a complete directive, every candidate / requested completer appears exactly once",
-                note="bounds: strings <=6 bytes quick / <=8 thorough; 0-2 candidates, 0-1 completers plus five pairs incl. same-kind pairs with different masks (thorough: all pairs); reference lexers in props/C15.py; sourcing in a real shell not attempted; three defects found and fixed (7d9d288, 7f18a65, 640d5de)",
+    "C15": dict(text="the single-quote wrapper `Shell` executed from MIR (core::fmt interpreted) on every valid UTF-8 string up to the bound: the output lexes under POSIX rules as exactly one word with the input as value; render_zsh/bash/fish/simple executed from MIR on candidate and completer lists whose user-originated strings are tracked atoms: no atom reaches a zsh/bash script unquoted, every line is a complete directive, every candidate / requested completer appears exactly once; fish / elvish line protocols: every candidate exactly once and the whole help text (which may hold line breaks) is never written, only its first line",
+                note="bounds: strings <=6 bytes quick / <=8 thorough; 0-2 candidates, 0-1 completers plus five pairs incl. same-kind pairs with different masks (thorough: all pairs); reference lexers in props/C15.py; sourcing in a real shell not attempted; four defects found and fixed (7d9d288, 7f18a65, 640d5de, a82f969)",
                 tech=MIRSYM + " over symbolic bytes / tracked atoms", ref="DESIGN.md 4/C15"),
     "C16": dict(text="kernels executed from MIR over symbolic bytes: roff escape() on fragment sequences (exact provenance: inserted bytes concrete, user bytes symbolic) - no user byte starts a line as a control character, every user backslash is escaped; the Roff builder API (control / plaintext / text ...) + render on symbolic user strings incl. the double quote (the escaping mode is chosen by the executed code); whole manpage / html documents of a grammar whose free texts are symbolic bytes (udoc jobs, compared with the native build byte for byte); html change_style for all 64 style pairs; Doc::render_html (with the Splitter) on 7 block templates - tags balanced, no user `<`/`>` reaches the output; extract_sections visits every command level exactly once",
                 note="bounds: <=3 fragments x <=2 user bytes quick (4 x 3 thorough); html text <=4 bytes (5 thorough); section traversal (extract_sections) on 10 command trees incl. duplicate command names and a group_help group; whole documents: markdown / html / manpage of 14 corpus grammars rendered from MIR, byte-equal to the native build, one section per command level naming its visible items and no hidden one; documents of solver-chosen definitions (C12 generator with nested command levels, depth <=2); markdown cosmetics are not judged; one defect found and fixed (roff control arguments)",
@@ -65,7 +65,7 @@ CHECKS = {
     "C19": dict(text="adjacent groups (multi-value option, option-struct before/after a switch, optional and repeated) and adjacent subcommand chains: Ok => every group value comes from one contiguous block starting at a group-start item, in command line order (value provenance); clean lines => Ok with exactly the block values; a group-start item without a complete block => stderr",
                 note="bounds: <=3 argv words quick / <=4 thorough on 7 grammars (incl. nested adjacent groups); lemma: ParseAdjacent::eval from every pre-state of <=4 items quick / <=5 thorough (any subset consumed, any scope) around a solver-chosen deterministic inner parser - Ok => consumed items are one contiguous run inside the scope, scope restored; lines the documentation does not fix (positional before a block) only carry the soundness obligation; one defect found and fixed (de99059)",
                 tech=MIRSYM + ", provenance + block-decomposition oracle", ref="DESIGN.md 4/C19"),
-    "C20": dict(text="relational across two MIR dumps ({} and {autocomplete,docgen,batteries}): the second build is explored under each path condition of the first; Z3 shows equal class, value, ledger and Message",
+    "C20": dict(text="relational across two MIR dumps ({} and {autocomplete,docgen,batteries}): the second build is explored under each path condition of the first (symbolic argv and environment; for grammar gd with Doc::to_completion executed from MIR); Z3 shows equal class, value, ledger and Message",
                 note="bounds <=2 argv words quick / <=3 thorough, 19 grammars; run_inner prologue (short-name table, State::construct on argv bytes, ambiguity report) compared on symbolic bytes over 5-letter alphabets, <=2 words / 6 bytes quick (3 / 8 thorough); help *text*: Doc::render_console (Splitter included) compared across the builds on a help item whose body is a structural prefix + <=3 (4) symbolic bytes; error text rendering cut; colour features and derive not executed; one defect found and fixed (86df1ed); one known finding (fenced code blocks in help text are recognised with docgen only)",
                 tech=MIRSYM + ", relational query across two builds", ref="DESIGN.md 4/C20"),
 }
